@@ -33,7 +33,7 @@ func Run(c *common.Ctx) error {
 	// fixed history first: commits that fail inside LiteFS (the transaction file cannot be published, SQLite rolls
 	// back) while shrinking / growing / in place, each followed by ordinary commits
 	{
-		cfg := hist.Config{PageSize: 512, CommitFaults: true}
+		cfg := hist.Config{PageSize: 512, CommitFaults: true, Clients: true}
 		h, err := hist.New(c, c.Rng.Fork(), cfg)
 		if err != nil {
 			if h != nil {
@@ -50,6 +50,14 @@ func Run(c *common.Ctx) error {
 			{Op: "rtx", Writes: map[uint32]uint64{4: 54}, NewSize: 6, FailCommit: true, JMode: 2}, // in place refused
 			{Op: "rtx", Writes: map[uint32]uint64{5: 65}, NewSize: 4},
 			{Op: "rtx", Writes: map[uint32]uint64{2: 72}, NewSize: 4},
+			// writers that die after their page writes (LiteFS rolls the journal back): the last page, the first page,
+			// a growing transaction
+			{Op: "rtx", Writes: map[uint32]uint64{4: 84}, NewSize: 4, Die: true},
+			{Op: "rtx", Writes: map[uint32]uint64{3: 93}, NewSize: 4},
+			{Op: "rtx", Writes: map[uint32]uint64{1: 101, 2: 102}, NewSize: 4, Die: true, JMode: 2},
+			{Op: "rtx", Writes: map[uint32]uint64{3: 113}, NewSize: 4},
+			{Op: "rtx", Writes: map[uint32]uint64{4: 124, 5: 125, 6: 126}, NewSize: 6, Die: true, JMode: 1, JSplit: 1},
+			{Op: "rtx", Writes: map[uint32]uint64{2: 132}, NewSize: 4},
 		} {
 			if ob := h.Exec(st); ob.Panic != "" || len(ob.Exits) > 0 {
 				break
@@ -64,6 +72,36 @@ func Run(c *common.Ctx) error {
 			}
 		}
 		c.Count("scripted_failed_commit_steps", len(h.Obs))
+		h.Close()
+	}
+	// fixed WAL history: transactions that spill frames into the log and roll back, with LiteFS's own checkpoint
+	// (role change, halt lock, restore) running while those frames sit, valid, behind the last commit
+	{
+		cfg := hist.Config{PageSize: 512, AllowWAL: true, Clients: true}
+		h, err := hist.New(c, c.Rng.Fork(), cfg)
+		if err != nil {
+			if h != nil {
+				h.Close()
+			}
+			return fmt.Errorf("history setup: %w", err)
+		}
+		for _, st := range []hist.Step{
+			{Op: "rtx", Writes: map[uint32]uint64{1: 1, 2: 2, 3: 3, 4: 4, 5: 5}, NewSize: 5, ToWAL: true},
+			{Op: "wtx", Frames: [][2]uint64{{2, 12}, {4, 14}}, NewSize: 5},
+			{Op: "wabort", Aborted: [][2]uint64{{3, 23}, {6, 26}}, CkptMode: 1},
+			{Op: "wtx", Frames: [][2]uint64{{5, 35}}, NewSize: 5},
+			{Op: "wabort", Aborted: [][2]uint64{{1, 41}, {2, 42}}, CkptMode: 0},
+			{Op: "wtx", Frames: [][2]uint64{{3, 53}}, NewSize: 4},
+			{Op: "wabort", Aborted: [][2]uint64{{4, 64}, {5, 65}}, CkptMode: 1},
+			{Op: "wtx", Frames: [][2]uint64{{2, 72}}, NewSize: 4},
+		} {
+			if ob := h.Exec(st); ob.Panic != "" || len(ob.Exits) > 0 {
+				break
+			}
+		}
+		h.CheckCrash(c, "C04")
+		h.CheckChecksum(c)
+		cf.Add(h.CoqCase(), map[string]any{"kind": "history", "page_size": cfg.PageSize, "scripted": "rolled-back WAL transactions", "steps": h.Steps})
 		h.Close()
 	}
 	for i := 0; i < nHist; i++ {
